@@ -953,9 +953,8 @@ func (r *Resolvable) printExtensions(ctx context.Context, fetchTree *FetchTreeNo
 				r.printBytes(comma)
 			}
 			counter++
-			r.printBytes(quote)
-			r.printBytes([]byte(key))
-			r.printBytes(quote)
+			// the member name comes from a subgraph: it must be escaped
+			r.printNode(astjson.StringValue(r.astjsonArena, key))
 			r.printBytes(colon)
 			r.printNode(value)
 
